@@ -94,6 +94,7 @@ pub fn run(seed: u64, thorough: bool, out_dir: &std::path::Path) -> Out {
     let scheds_per_tree = if thorough { 6 } else { 3 };
     let mut case_no = 0usize;
     for ti in 0..n_trees {
+        if out.viol.iter().filter(|v| v.get("signature").is_none()).count() >= 6 { *out.stats.entry("stopped_early_after_violations".into()).or_default() += 1; break; }
         let params = TreeParams {
             n: rng.range(5, if thorough { 60 } else { 26 }) as usize,
             genesis_epoch_length: *rng.pick(&[3u64, 4, 6, 9, 1000]),
@@ -134,6 +135,8 @@ pub fn run(seed: u64, thorough: bool, out_dir: &std::path::Path) -> Out {
         let jtree: Vec<Value> = tree.nodes.iter().map(|x| json!({"id": x.id, "parent": x.parent, "difficulty": u256_to_u128(&x.difficulty).to_string(), "kind": format!("{:?}", x.kind)})).collect();
 
         for _si in 0..scheds_per_tree {
+            // enough evidence: every stalled schedule costs a minute of waiting; the verdict is settled
+            if out.viol.iter().filter(|v| v.get("signature").is_none()).count() >= 6 { break; }
             let sched = gen_schedule(&mut rng, n, &mut out.stats);
             let jcase = json!({"stream": "tree-schedule", "directed_heavy_vs_light": directed, "tree": jtree, "schedule": sched});
             note_history(&[jcase.clone()]);
